@@ -222,3 +222,25 @@ Definition prog_of_lop (o : lop) : list kstep :=
   | LGC g => prog_gc g
   end.
 Definition prog_of_lops (ops : list lop) : list kstep := flat_map prog_of_lop ops.
+
+(* ---------- Delete with AutoGC: a cascade of delete() calls under ONE exclusive lock ---------- *)
+(* one queue item: node k is deleted; the manifests [ds] that lose their last predecessor get a
+   digest reference (Store.delete: after graph.Remove, before saveIndex; the graph knows them as
+   stored content - in this system that knowledge is an Exists step) *)
+Definition prog_delete_item (k : nat) (ds : list nat) : list kstep :=
+  flat_map (fun c =>
+    if str_eqb c (b "s.tagResolver.Untag") then [KRegDelete k]
+    else if str_eqb c (b "s.graph.Remove") then flat_map (fun d => [KExists d; KReg (RegDig (plain d))]) ds
+    else if str_eqb c (b "s.saveIndex") then ksave
+    else if str_eqb c (b "s.storage.Delete") then [KRemove k]
+    else []) c08_calls_delete.
+(* Store.Delete with AutoGC: lock, the queue loop (the target, then referrers and danglings), unlock *)
+Definition prog_delete_auto (items : list (nat * list nat)) : list kstep :=
+  flat_map (fun c => if str_eqb c (b "s.sync.Lock") then [KWLock] else []) (firstn 1 c08_calls_Delete) ++
+  flat_map (fun it => prog_delete_item (fst it) (snd it)) items ++ [KWUnlock].
+(* a node that gets a digest reference is not one the cascade has deleted (it is still in the graph) *)
+Fixpoint cascade_wf (gone : list nat) (items : list (nat * list nat)) : bool :=
+  match items with
+  | [] => true
+  | (k, ds) :: r => forallb (fun d => negb (mem d (k :: gone))) ds && cascade_wf (k :: gone) r
+  end.
